@@ -98,7 +98,7 @@ def _chunk(arg: tuple) -> tuple[int, int, list, list]:
                     continue
                 n_docs += 1
                 for plan in plans_for(f0, rng, depth2, only_invalid):
-                    store_replay.set_load_factor([2, 3, 1000, 4][(k + len(plan)) % 4])
+                    store_replay.set_load_factor(store_replay.rot(k + len(plan)))
                     f = tree.parse(text)
                     store = f.token_store
                     toks = list(store)
